@@ -296,6 +296,24 @@ func catalogue(tier string) []cfg {
 			}
 		}
 	}
+	// boundary of the minimum level: 3, 5, 6, 7 parties with the security parameter searched so that a partial
+	// product lies less than log2(n) bits above the mask bound (index-order aggregation: the level is the subject)
+	for _, n := range []int{3, 5, 6, 7} {
+		for _, ls := range []int{3, 0} {
+			for _, proto := range []string{"ckks-e2s", "ckks-refresh"} {
+				tfn := ""
+				if proto == "ckks-refresh" {
+					tfn = "nil"
+				}
+				k := cfg{proto: proto, chain: mp.ChainCKFrac, ntt: true, n: n, lin: 0, lsh: -1, lout: -1, sigma: sigmas[ls%3], logSlots: ls, logScale: 25, tf: tfn, batched: true, lambda: -1}
+				if n == 3 {
+					r = append(r, full(k))
+				} else {
+					r = append(r, ld(k, n, 1))
+				}
+			}
+		}
+	}
 	// other log-bound settings: security parameter 64 and 160 instead of 128
 	for _, lam := range []int{64, 160} {
 		for _, n := range []int{1, 2, 3} {
